@@ -64,12 +64,12 @@ impl Opts {
     }
 }
 
-pub const PATTERN_POOLS: &[&[&str]] = &[&[], &["^i-"], &["el"], &["^i-", "^my-"]];
+pub const PATTERN_POOLS: &[&[&str]] = &[&[], &["^i-"], &["el"], &["^i-", "^my-"], &["^Ion", "^i-"]];
 
 /// all booleans random; pragma and patterns optional
 pub fn any_opts(c: &mut Choices, allow_pragma: bool, allow_resolve_type: bool) -> Opts {
     let bits = c.byte();
-    let pats = PATTERN_POOLS[c.weighted(&[4, 2, 1, 1])];
+    let pats = PATTERN_POOLS[c.weighted(&[4, 2, 1, 1, 2])];
     let pragma = if allow_pragma && c.chance(1, 6) {
         Some("h".to_string())
     } else {
